@@ -61,7 +61,7 @@ build() { # $1 = output binary, $2 = "race" or ""
     # that register this check. When everything compiles this path is never taken.
     echo "NOTE: full harness build failed; retrying with the core + the module of $PROP only" >&2
     grep -E '^\./zz_verif|^zz_verif|error' "$bd/build.log" | head -5 >&2
-    ONLY_MODULES="main verdict ctl util racepass"
+    ONLY_MODULES="main verdict ctl util racepass m_alloc m_queue m_pool"
     for f in $(grep -l "verifChecks\[\"$PROP\"\]" "$VERIF_DIR"/harness/*.go); do
       ONLY_MODULES="$ONLY_MODULES $(basename "$f" .go)"
       if grep -q '\braw[A-Z]' "$f" && [ -e "$VERIF_DIR/harness/rawpeer.go" ]; then ONLY_MODULES="$ONLY_MODULES rawpeer"; fi
